@@ -26,6 +26,7 @@ def run(ctx):
     driver = ctx["driver_dir"] + "/p3r_driver_c12"
     violations, hist, samples = [], {}, []
     evaluations = distinct = nontrivial = disagreements = compared = proofs = 0
+    gadget_cost = None
     for n, r in enumerate(runs):
         out = f"{work}/run{n}"
         cmd = [ctx["harness"], "decomp", "--seed", str(seed + 1000 * n), "--value-cases", str(r["value"]),
@@ -40,6 +41,7 @@ def run(ctx):
         rep = json.load(open(f"{out}/decomp.report.json"))
         evaluations += rep["evaluations"]; distinct += rep["distinct"]; nontrivial += rep["distinct_nontrivial"]
         proofs += rep["proofs"]
+        gadget_cost = rep.get("gadget_cost_alu_rows_and_slots")
         for k, v in rep["hist"].items():
             hist[k] = hist.get(k, 0) + v
         samples += rep["samples"][:4]
@@ -64,7 +66,7 @@ def run(ctx):
     cov = {"evaluations": evaluations, "distinct_nontrivial": nontrivial, "distinct": distinct, "real_proofs": proofs,
            "rule": "cases = (field bb/kb/gl, bit width n, value x, contents of the hinted bit slots) and (field, D, W, lowering "
                    "alu/npo/npoc, consumer shape, x, contents of the D hinted coefficient slots), generated from VERIF_SEED: honest, "
-                   "bits of x+p / x+2p, one flipped bit, recomposition-preserving non-boolean, random boolean; moved mass, tail junk, "
+                   "bits of x+p / x+2p (must be rejected since the canonicity repair), one flipped bit, recomposition-preserving non-boolean, random boolean; moved mass, tail junk, "
                    "head change, random; plus hint-output and recomposition-value cases, and in-situ cases on the real CircuitChallenger::sample_bits "
                    "(BabyBear D=4, Poseidon2 w16; observed values ground until sample < 2^31-p, hint replaced by bits of sample+p). Each case is executed on the real builder + "
                    "runner with the hint executor replaced, 'prove' cases also through prove_all_tables + verify_all_tables; every "
@@ -72,7 +74,8 @@ def run(ctx):
                    "not the honest hint output",
            "samples": samples[:6], "input_distribution": hist,
            "traces_validated_against_impl": compared, "disagreements_checked": disagreements,
-           "known_not_reproduced": []}
+           "known_not_reproduced": [],
+           "decompose_to_bits_cost_(alu_rows,witness_slots)": gadget_cost}
     return violations, cov
 
 
@@ -82,11 +85,15 @@ CHECK = {
     "theorems": ["P3R.C12.accept_iff", "P3R.C12.bits_unique", "P3R.C12.bits_not_unique", "P3R.C12.unique_iff",
                  "P3R.C12.lowbit_changes", "P3R.C12.babybear_31_not_unique", "P3R.C12.koalabear_31_not_unique",
                  "P3R.C12.goldilocks_64_not_unique",
+                 "P3R.C12.accept_fixed_iff", "P3R.C12.bits_canonical_fixed", "P3R.C12.fixed_canon_accept",
+                 "P3R.C12.babybear_31_unique_fixed", "P3R.C12.koalabear_31_unique_fixed",
+                 "P3R.C12.goldilocks_64_unique_fixed",
                  "P3R.C12.recompose_embed", "P3R.C12.alu_base_unique", "P3R.C12.alu_canon_accept",
                  "P3R.C12.alu_not_unique", "P3R.C12.npo_accept_iff", "P3R.C12.npo_cells_unique",
                  "P3R.C12.npo_not_unique", "P3R.C12.npoc_bound_unique", "P3R.C12.npoc_unbound_eq_npo",
-                 "P3R.C12.Witness.forged_accepted", "P3R.C12.Witness.forged_index_differs",
-                 "P3R.C12.Witness.full_statement_bits_false", "P3R.C12.Witness.full_statement_coeffs_alu_false",
+                 "P3R.C12.Witness.forged_rejected", "P3R.C12.Witness.forged_run_conflict",
+                 "P3R.C12.Witness.honest_accepted", "P3R.C12.Witness.forged_index_differs",
+                 "P3R.C12.Witness.full_statement_bits_false_before_repair", "P3R.C12.Witness.full_statement_coeffs_alu_false",
                  "P3R.C12.Witness.junk_accepted_npo", "P3R.C12.Witness.junk_rejected_npoc_read"],
     "run": run,
     "trusted_base": [
@@ -111,8 +118,8 @@ MANIFEST_ENTRY = {
     "technique": "Lean 4 theorems characterising every accepted decomposition witness (model of the circuit relation on the hinted slots) + differential correspondence of run / prove+verify verdicts with deviating hint executors on the real code",
     "level_claimed": {
         "category": "proof",
-        "text": "accept_iff: the accepted bit vectors of v<p are exactly the n-bit expansions of v+k*p; unique iff 2^n <= v+p (bits_unique, bits_not_unique, unique_iff, call-site instances for BabyBear/KoalaBear/Goldilocks). Coefficients: base-field coefficient vectors unique (alu_base_unique); ALU chain accepts moved mass for every D>=2 (alu_not_unique); recompose table binds only the cells (npo_accept_iff, npo_not_unique); recompose/coeff unique iff its tuple has non-zero multiplicity (npoc_bound_unique, npoc_unbound_eq_npo). Model tied to the code by line-exact comparison of runner outcome and prove+verify verdict on generated honest and deviating hint outputs.",
+        "text": "Bits (after fixes/C12-1.diff): accept_fixed_iff / bits_canonical_fixed: for w = BF::bits() and every n <= w the repaired relation (boolean checks, recomposition identity, comparison of a full-width limb with the bits of p) accepts exactly the canonical bits; call-site instances for BabyBear/KoalaBear/Goldilocks. Without the comparison (accept_iff, bits_not_unique, unique_iff) the witnesses are the expansions of v+k*p, which is what the repair removes. Coefficients: base-field coefficient vectors unique (alu_base_unique); ALU chain accepts moved mass for every D>=2 (alu_not_unique); recompose table binds only the cells (npo_accept_iff, npo_not_unique); recompose/coeff unique iff its tuple has non-zero multiplicity (npoc_bound_unique, npoc_unbound_eq_npo). Model tied to the code by line-exact comparison of runner outcome and prove+verify verdict on generated honest and deviating hint outputs.",
         "design_ref": "4/C12",
     },
-    "level_note": "Lean kernel + 3 standard axioms; model hand-written (correspondence-tested, bb/kb/gl, D in {1,2,4}); STARK/LogUp assumed ideal; multi-limb bit decompositions and quintic extension not modelled; full statement is false on the current tree (known findings F8, F16, F17, F18)",
+    "level_note": "Lean kernel + 3 standard axioms; model hand-written (correspondence-tested, bb/kb/gl, D in {1,2,4}); STARK/LogUp assumed ideal; multi-limb bit decompositions and quintic extension not modelled; bits: full statement proved for the repaired gadget (F8 fixed, its witnesses are regression cases that must be rejected); coefficients: full statement false (known findings F16, F17, F18)",
 }
